@@ -188,6 +188,11 @@ class TrackWorld(World):
         cfg["size_bias"] = "big"
         cfg["sessions"] = 3
         cfg["n_instants"] = r.choice([6, 12, 40])
+        if r.random() < 0.06:
+            # a few short histories on tracks of hundreds of fixes
+            cfg.update({"size_bias": "huge", "nsteps": r.choice([6, 10, 16]), "sessions": 1,
+                        "n_instants": r.choice([40, 400])})
+            cfg["ops"]["sort_radix"] = 0
 
     # ------------------------------------------------------------------- setup
     def setup(self):
@@ -279,6 +284,8 @@ class TrackWorld(World):
             return r.choice([1, 2, 3, 4, 7, 8, 9, 15, 16, 17])
         if b == "big":
             return r.choice([17, 31, 32, 33, 40, 63, 64, 65, 100, 130])
+        if b == "huge":
+            return r.choice([255, 256, 257, 300, 1000, 1025])       # thorough tier only: thresholds of buffers and caches
         return r.randint(0, 17)
 
     def _gen_value(self, r, n):
@@ -376,7 +383,7 @@ class TrackWorld(World):
 
     def _g_coll_feature(self, r, m):
         return {"out": self._pick_name(r, m), "lit": r.choice([2, 3, 0.5, 10]), "how": r.choice(["operate", "add_af"]),
-                "base": self._uval()}
+                "base": self._uval(), "twice": r.random() < 0.2}
 
     def _g_add_af(self, r, m):
         return self._callable_fault(r, {"name": self._pick_name(r, m), "func": r.choice(["affine", "next_x", "lazy_speed"]),
@@ -1129,6 +1136,9 @@ class TrackWorld(World):
         if not sess or any(self.real[a] is self.real[b] for a in sess for b in sess if a < b):
             raise Skip()
         coll = TrackCollection([self.real[s_] for s_ in sess])
+        if st.get("twice"):
+            coll.addTrack(self.real[sess[0]])       # the same track twice in the collection: written twice, same values
+            self.probe("collection_with_the_same_track_twice")
         if st["how"] == "operate":
             lit = st["lit"]
             _, exc = self.call(coll.operate, "%s=idx*%s+x" % (out, self._lit(lit)))
@@ -2847,8 +2857,8 @@ class TrackWorld(World):
         from tracklib.core.kernel import GaussianKernel, DiracKernel
         t, m = self._sess(st)
         n = len(m["obs"])
-        if n < 2 or "ds" in m["names"]:
-            raise Skip()
+        if n < 2 or "ds" in m["names"] or n > 200:
+            raise Skip()            # (the covariance matrix of a thousand fixes takes seconds: not a step of a simulation)
         numpy.random.seed(st["seed"])
         _random.seed(st["seed"])
         ker = DiracKernel() if st.get("scope") is None else GaussianKernel(st["scope"])
